@@ -249,4 +249,55 @@ theorem partition_bool_spec (f : α → κ) (t fl : κ) (hne : t ≠ fl) (src : 
   simp only [this]
   exact List.filter_append_perm _ src
 
+/-! ### dict order of the buckets = order of first appearance of the keys -/
+
+theorem uniqueLoop_seen_congr (f : α → κ) : ∀ (xs : List α) (s1 s2 : List κ),
+    (∀ k, k ∈ s1 ↔ k ∈ s2) → uniqueLoop f xs s1 = uniqueLoop f xs s2 := by
+  intro xs
+  induction xs with
+  | nil => intro s1 s2 _; simp [uniqueLoop]
+  | cons x xs ih =>
+    intro s1 s2 h
+    rw [uniqueLoop, uniqueLoop]
+    by_cases hx : f x ∈ s1
+    · have hx2 : f x ∈ s2 := (h _).mp hx
+      simp only [hx, hx2, ↓reduceIte]
+      exact ih s1 s2 h
+    · have hx2 : f x ∉ s2 := fun e => hx ((h _).mpr e)
+      simp only [hx, hx2, ↓reduceIte]
+      congr 1
+      apply ih
+      intro k
+      simp [h k]
+
+theorem bucketLoop_keys (f : α → κ) (g : α → β) (kf : κ → Bool) :
+    ∀ (xs : List α) (ret : List (κ × List β)),
+      keysOf (bucketLoop f g kf xs ret) =
+        keysOf ret ++ uniqueLoop id ((xs.map f).filter kf) (keysOf ret) := by
+  intro xs
+  induction xs with
+  | nil => intro ret; simp [bucketLoop, uniqueLoop]
+  | cons x xs ih =>
+    intro ret
+    rw [bucketLoop]
+    by_cases hkf : kf (f x) = true
+    · simp only [hkf, ↓reduceIte, List.map_cons, List.filter_cons]
+      rw [ih, keysOf_setdefaultAppend, uniqueLoop]
+      by_cases hin : f x ∈ keysOf ret
+      · simp [hin]
+      · simp only [hin, ↓reduceIte, id_eq, List.append_assoc, List.cons_append, List.nil_append]
+        congr 2
+        apply uniqueLoop_seen_congr
+        intro k
+        simp [or_comm]
+    · have hkf' : kf (f x) = false := by simpa using hkf
+      simp only [hkf', Bool.false_eq_true, ↓reduceIte, List.map_cons, List.filter_cons]
+      exact ih ret
+
+theorem bucketize_keys (f : α → κ) (g : α → β) (kf : κ → Bool) (src : List α) :
+    keysOf (bucketize f g kf src) = unique id ((src.map f).filter kf) := by
+  unfold bucketize unique
+  rw [bucketLoop_keys]
+  simp [keysOf]
+
 end C09
